@@ -29,6 +29,7 @@ var Def = driver.PropDef{
 		"R2 the per-byte step is crc = (crc<<8) ^ tab[((crc>>8) ^ b) & 0xff] from initial value 0 over every byte in order; " +
 		"R3 both hash-tag extractors (common.KeyToSlot, redis-go-cluster hash) stop at the first '{' and the first following '}', take key[open+1:close], and hash the tag only when it is non-empty, otherwise the whole key; " +
 		"R4 ChoseSlotInRange accepts exactly left <= slot <= right for the slot of the whole returned string, which starts with CheckpointKey-; FilterKey rejects every CheckpointKey-prefixed string before consulting any list; " +
+		"R4.guard the function that hands the boundaries of its shard to ChoseSlotInRange reaches that call for every legal slot range 0 <= left <= right <= 16383 (the conditions on the way are evaluated as a predicate over the two boundaries; only values that are no slot range, such as the sentinel -1, may skip it); " +
 		"R5 findKeyInRange tests the slot of the key it returns with inclusive bounds.",
 	NotDecided: "termination of the suffix search for very narrow slot ranges; equality of the computed value with the specification beyond table/step/scan agreement.",
 	Trusted:    []string{"go/parser, go/types, go/cfg (x/tools v0.29.0)", "strings.HasPrefix, fmt.Sprintf semantics"},
@@ -73,6 +74,10 @@ func run(c *core.Ctx) {
 	c.Expect("R4.range", 4)
 	c.Expect("R4.prefix", 2)
 	c.Expect("R4.filter", 2)
+	if chose := c.FuncOpt(pkgCommon, "", "ChoseSlotInRange"); chose != nil { // (its absence is reported by checkpointKey)
+		shardGuards(c, chose)
+	}
+	c.Expect("R4.guard", 1)
 	c.Expect("R5.latency", 3)
 }
 
@@ -446,6 +451,12 @@ func stepLoop(c *core.Ctx, fn *core.Fn, name string, as *ast.AssignStmt, b ast.E
 				ranged = rhs[0]
 			}
 		}
+		if ie, isIdx := b.(*ast.IndexExpr); isIdx && l.Key != nil && objOf(info, l.Key) != nil && objOf(info, strip(info, ie.Index)) == objOf(info, l.Key) {
+			// `for i := range X { ... in[i] ... }`: the step sees exactly the positions the
+			// range statement enumerates, so these must be ALL of 0..len(input)-1
+			rangeIndexed(c, fn, name, l, ie, ranged, isParam)
+			return
+		}
 		if !isParam(strip(info, ranged)) || l.Value == nil || objOf(info, b) == nil || objOf(info, b) != objOf(info, l.Value) {
 			und("byte operand %s is not the range value of the input", c.Src(b))
 			return
@@ -738,4 +749,75 @@ func identFor(info *types.Info, e ast.Expr, o types.Object) ast.Expr {
 		return true
 	})
 	return out
+}
+
+// rangeIndexed decides `for i := range X { ... in[i] ... }`: the step is applied
+// at exactly the positions the range statement enumerates. These are all of
+// 0..len(in)-1 when X is a byte slice (or array) of the input's length or the
+// integer len(in); over a STRING the range statement enumerates only the offsets
+// at which a UTF-8 sequence starts, whatever is done with the index afterwards.
+func rangeIndexed(c *core.Ctx, fn *core.Fn, name string, l *ast.RangeStmt, ie *ast.IndexExpr, ranged ast.Expr, isParam func(ast.Expr) bool) {
+	info := fn.Pkg.TypesInfo
+	und := func(f string, a ...interface{}) { c.Undecidedf("R2.step", name+"/loop", l.Pos(), f, a...) }
+	// input: the parameter an expression stands for (itself, a conversion of it, or a local holding one of these)
+	input := func(e ast.Expr) types.Object {
+		e = strip(info, e)
+		if o := objOf(info, e); o != nil && !isParam(e) {
+			if rhs, other := defsOf(info, fn.Decl.Body, o); len(rhs) == 1 && other == 0 && rhs[0] != nil {
+				e = strip(info, rhs[0])
+			}
+		}
+		if isParam(e) {
+			return objOf(info, e)
+		}
+		return nil
+	}
+	in := input(ie.X)
+	if in == nil {
+		und("indexed operand %s is not the input", c.Src(ie.X))
+		return
+	}
+	if rhs, other := defsOf(info, l.Body, objOf(info, l.Key)); len(rhs) > 0 || other > 0 {
+		und("the range index %s is written inside the loop", c.Src(l.Key))
+		return
+	}
+	isByte := func(t types.Type) bool {
+		b, ok := t.Underlying().(*types.Basic)
+		return ok && b.Kind() == types.Uint8
+	}
+	t := info.TypeOf(l.X)
+	if t == nil {
+		und("untyped range expression %s", c.Src(l.X))
+		return
+	}
+	switch u := t.Underlying().(type) {
+	case *types.Basic:
+		switch {
+		case u.Info()&types.IsString != 0:
+			if input(ranged) != in {
+				und("the loop ranges over the string %s, the step reads %s", c.Src(l.X), c.Src(ie))
+				return
+			}
+			c.Check("R2.step", name+"/loop", l.Pos(), false,
+				fmt.Sprintf("the step must be applied to every byte of the input; `range %s` over a string enumerates only the offsets where a UTF-8 sequence starts, so %s is never read at the continuation bytes: every key with a multi-byte sequence gets a CRC different from CRC-16/XMODEM of its bytes (and from the other CRC16 copies)", c.Src(l.X), c.Src(ie)))
+		case u.Info()&types.IsInteger != 0: // range over an integer: 0..n-1
+			if call, ok := strip(info, ranged).(*ast.CallExpr); ok && len(call.Args) == 1 {
+				if b, isB := core.Callee(info, call).(*types.Builtin); isB && b.Name() == "len" && input(call.Args[0]) == in {
+					c.Okf("R2.step", name+"/loop", l.Pos(), "the step is applied at every position 0..len(input)-1, in order")
+					return
+				}
+			}
+			und("the loop counts to %s, which is not the length of the input", c.Src(l.X))
+		default:
+			und("unrecognised range expression %s", c.Src(l.X))
+		}
+	case *types.Slice:
+		if !isByte(u.Elem()) || input(ranged) != in {
+			und("the loop ranges over %s, which is not the bytes of the input", c.Src(l.X))
+			return
+		}
+		c.Okf("R2.step", name+"/loop", l.Pos(), "the step is applied at every position 0..len(input)-1, in order")
+	default:
+		und("unrecognised range expression %s", c.Src(l.X))
+	}
 }
